@@ -197,6 +197,22 @@ theorem C12_bytes (p : Policy) (hp : PlainC p.ensureInit) (input : Bytes) :
   obtain ⟨t, _, aps, _, _, hs⟩ := reread_open_tagC p hp input k hk htt hne
   exact C12_sanitizeAttrs p.ensureInit k.data t.attrs aps k.attrs hs hne
 
+/-- (per-input form)  **C12 (byte level, plain policies)**: every start or self-closing tag with attributes that an
+    HTML tokenizer reads from the returned bytes satisfies the forced-attribute postconditions —
+    audio/img/link/script/video carry `crossorigin="anonymous"` and no other crossorigin value;
+    iframe carries a sandbox attribute whose tokens are a duplicate-free subset of the allowed values. -/
+theorem C12_bytes_on (p : Policy) (input : Bytes) (hp : PlainOn p.ensureInit (tokenize input)) :
+    ∀ k ∈ Html.tokenize (p.sanitizeCore input), (k.tt = .start ∨ k.tt = .selfClosing) → k.attrs ≠ [] →
+      (p.ensureInit.requireCrossOriginAnonymous = true → isCrossOriginElement k.data = true →
+        (∃ a ∈ k.attrs, a.key = b!"crossorigin") ∧ ∀ a ∈ k.attrs, a.key = b!"crossorigin" → a.val = b!"anonymous") ∧
+      (∀ allowed, p.ensureInit.requireSandboxOnIFrame = some allowed → k.data = b!"iframe" →
+        (∃ a ∈ k.attrs, a.key = b!"sandbox") ∧
+        ∀ a ∈ k.attrs, a.key = b!"sandbox" →
+          ∃ toks : List Bytes, a.val = joinBytes [32] toks ∧ toks.Nodup ∧ ∀ v ∈ toks, v ∈ allowed) := by
+  intro k hk htt hne
+  obtain ⟨t, _, aps, _, _, hs⟩ := reread_open_tagOn p input hp k hk htt hne
+  exact C12_sanitizeAttrs p.ensureInit k.data t.attrs aps k.attrs hs hne
+
 /-- non-vacuity -/
 example :
     let p : Policy := { initialized := true, elsAndAttrs := [(b!"img", [(b!"src", [none]), (b!"crossorigin", [none])])],
